@@ -115,7 +115,7 @@ def run(ck, prog, ctx):
     for b, t in bad:
         ck.violation("TABLE", "endian/%s/%s" % (b.short, t.callee.method), "non-big-endian byte conversion %s" % t.callee.def_args, where=b.where(t.line))
     ck.ob("TABLE", "endian/all", not bad, "%d int<->bytes conversion sites in production code, %d not big-endian" % (len(alls), len(bad)))
-    ck.floor("TABLE", "endian conversion sites", len(alls), 20)
+    ck.floor("TABLE", "endian conversion sites", len(alls), 10)
 
     # ---------------- ROLE: what is handed to the number parser is the caller's text from the prefix offset on, unmodified
     ck.rule("ROLE", "the text parsed as the number is a plain sub-slice of the input: no normalising str method (trim*, to_*case, replace, strip_*, split*) on the way (DESIGN 3.4)")
